@@ -32,6 +32,8 @@ INVARIANT Inv_C05_Stream
 INVARIANT Inv_C05_Closed
 INVARIANT Inv_C05_Call
 INVARIANT Inv_C05_End
+INVARIANT Inv_C05_Returns
+INVARIANT Inv_C17_Returns
 INVARIANT Inv_C17_Live
 INVARIANT Inv_C17_Equivalent
 INVARIANT Inv_C17_NewIdentity
